@@ -1,9 +1,106 @@
 import JominiModel.Driver.Util
+import JominiModel.Model.Json
+import JominiModel.Spec.JsonDoc
+/-
+ops of property C16:
+  json <opts> <enc> <entry> <tape> <hex>
+    opts  = [m|p][g|p|k][a|u|n]   minified/pretty, Group/Preserve/KeyValuePairs, All/Unquoted/None
+    enc   = w | u                 Windows-1252 / UTF-8
+    entry = obj | arr | val       whole document / first field's value as array / as value
+    tape  = the tape the REAL parser produced for <hex> (show.rs `text_tape`)
+    hex   = the input bytes (replay only; the model converts the tape)
+  → hex of the output with every float token replaced by `f<bits>` | na | panic | hang
+  wf <tape> <hex>
+    the runtime-checked hypothesis of C16_total / C16_content: `wf` iff `wfTapeB tape` (the tape is
+    the token list of a document tree) AND (a spot check of the proved C16_content) the model's
+    `toJson` equals `jsonOfDoc` of that tree for the three duplicate-key modes (compared as
+    rendered bytes); `notwf` / `mismatch` otherwise.  The harness answers `wf` for every tape
+    the real parser produced.
+-/
 namespace Jomini.Driver.C16
-open Jomini Jomini.Driver
+open Jomini Jomini.Driver Jomini.Json
 
-/-- ops of property C16 (none yet). -/
+def parseOp : String → Option Op
+  | "lt" => some .lt | "le" => some .le | "gt" => some .gt | "ge" => some .ge
+  | "ne" => some .ne | "exact" => some .exact | "eq" => some .eq | "exists" => some .exists_
+  | _ => none
+
+def dropPrefix? (s pre : String) : Option String :=
+  if s.startsWith pre then some (String.ofList (s.toList.drop pre.length)) else none
+
+def parseTok (s : String) : Option TTok :=
+  if s == "M" then some .mixed
+  else if let some r := dropPrefix? s "Op:" then (parseOp r).map .op
+  else if let some r := dropPrefix? s "U:" then (parseHex r).map .unquoted
+  else if let some r := dropPrefix? s "Q:" then (parseHex r).map .quoted
+  else if let some r := dropPrefix? s "P:" then (parseHex r).map .param
+  else if let some r := dropPrefix? s "N:" then (parseHex r).map .undefParam
+  else if let some r := dropPrefix? s "H:" then (parseHex r).map .header
+  else if let some r := dropPrefix? s "Am" then r.toNat?.map (.array · true)
+  else if let some r := dropPrefix? s "Om" then r.toNat?.map (.object · true)
+  else if let some r := dropPrefix? s "A" then r.toNat?.map (.array · false)
+  else if let some r := dropPrefix? s "O" then r.toNat?.map (.object · false)
+  else if let some r := dropPrefix? s "E" then r.toNat?.map .end_
+  else none
+
+def parseTape (s : String) : Option Tape :=
+  if s == "-" then some #[]
+  else (s.splitOn ",").foldl (fun acc w => do
+    let a ← acc
+    let tk ← parseTok w
+    pure (a.push tk)) (some #[])
+
+def parseOpts (s : String) : Option Opts :=
+  match s.toList with
+  | [a, b, c] => do
+    let pretty ← (if a == 'm' then some false else if a == 'p' then some true else none)
+    let dup ← (if b == 'g' then some DupMode.group else if b == 'p' then some DupMode.preserve
+               else if b == 'k' then some DupMode.kvp else none)
+    let narrow ← (if c == 'a' then some Narrow.all else if c == 'u' then some Narrow.unquoted
+                  else if c == 'n' then some Narrow.none else none)
+    pure ⟨pretty, dup, narrow⟩
+  | _ => none
+
+def parseEnc : String → Option Enc
+  | "w" => some .w1252 | "u" => some .utf8 | _ => none
+
+def parseEntry : String → Option Entry
+  | "obj" => some .obj | "arr" => some .arr | "val" => some .val | _ => none
+
+/-- canonical float token of the line protocol: `f<bits>` -/
+def floatTok (bits : Nat) : Bytes := 102 :: natDigits bits
+
+def allOpts : List Opts :=
+  [false, true].flatMap fun p => [DupMode.group, .preserve, .kvp].flatMap fun d =>
+    [Narrow.all, .unquoted, .none].map fun n => ⟨p, d, n⟩
+
+def spotOpts : List Opts :=
+  [⟨false, .group, .all⟩, ⟨true, .preserve, .unquoted⟩, ⟨false, .kvp, .none⟩]
+
+def wfAnswer (t : Tape) : String :=
+  match docOf t with
+  | none => "notwf"
+  | some d =>
+    if !docAt t d then "notwf"
+    else
+      let ok := spotOpts.all fun o => [Enc.utf8].all fun enc =>
+        match toJson o enc .obj t with
+        | .ok (some v) => render floatTok o v == render floatTok o (jsonOfDoc o enc d)
+        | _ => false
+      if ok then "wf" else "mismatch"
+
 def handle : Handler
+  | ["wf", st, _hex] => (parseTape st).map wfAnswer
+  | ["json", so, se, sy, st, _hex] => do
+    let o ← parseOpts so
+    let enc ← parseEnc se
+    let entry ← parseEntry sy
+    let t ← parseTape st
+    pure (match toJson o enc entry t with
+      | .error .panic => "panic"
+      | .error .hang => "hang"
+      | .ok none => "na"
+      | .ok (some v) => toHex (render floatTok o v))
   | _ => none
 
 end Jomini.Driver.C16
